@@ -247,7 +247,8 @@ func runC13Audit(t *vs.Tape, cfg map[string]string) (res vs.Result) {
 	case 2:
 		script = "true"
 	case 3:
-		cut := 1 + t.Intn(len(pair.diffJSON)-1, "worker.cut")
+		// position drawn per mille: the JSON holds temp paths whose length varies between processes
+		cut := 1 + t.Intn(999, "worker.cut")*(len(pair.diffJSON)-1)/1000
 		os.WriteFile(outFile, pair.diffJSON[:cut], 0o644)
 		script = "cat " + outFile
 	case 4:
